@@ -1,5 +1,5 @@
 """C13 (querier side): monitor spec/TraceBrowse.tla over spec/Heard.tla; see DESIGN.md section 7."""
-from . import daemon
+from . import cachemech, core, daemon
 
 PROP = "C13"
 PREFIXES = ['C13.']
@@ -12,8 +12,17 @@ MCS = [('MCSchedule', 'MCSchedule.cfg')]
 def run(tier, seed, t0):
     mcs = [(m, c.replace("{T}", "T" if tier == "thorough" else "")) for (m, c) in MCS]
     return daemon.run_group(PROP, tier, seed, t0, FAMILIES, "TraceBrowse", "TraceBrowse.cfg", PREFIXES, mcs,
-                            ['ev.SearchStopped', 'ev.SearchStarted', 'C13.loop-stopped'], ASSUME, RULE, n_quick=80, n_thorough=2000)
+                            ['ev.SearchStopped', 'ev.SearchStarted', 'C13.loop-stopped', 'C13.cache-forget', 'C13.cache-forget-addr'],
+                            ASSUME + cachemech.ASSUME,
+                            RULE + " Component level ('forgets the records it cached for the stopped browse'): family 'cacherand' - what "
+                            "remove_service_type drops (the type's PTRs, their instances' SRV / TXT, the addresses of hosts no other SRV points to, host "
+                            "names in any letter case), judged against Cache!Forget by TraceCache.tla (clause C13.cache-forget).",
+                            n_quick=80, n_thorough=2000, pre=lambda v, t, s: cachemech.light(PROP, PREFIXES, v, t, s))
 
 
 def replay(path, seed):
+    import json
+    case = json.load(open(path))["case"]
+    if case.get("args", {}).get("family") in ("cachecases", "cacherand"):
+        return cachemech.replay(PROP, PREFIXES, case, core.Verdict(PROP))
     return daemon.replay_group(path, "TraceBrowse", "TraceBrowse.cfg", PREFIXES, PROP)
